@@ -244,16 +244,7 @@ impl Check for C08 {
         cov.insert("smallest_deviation_from_node_polynomial_for_degree_plus_one_input".into(), json!(if sm.is_finite() { sm } else { -1.0 }));
     }
     fn replay(&self, replay: &Value) -> Result<(bool, String), String> {
-        let cfg = Cfg::from_json(&replay["cfg"])?;
-        let item = Item { degree: cfg.degree, ratio: cfg.ratio, kind: cfg.kind };
-        let mut acc = Acc { evals: 0, nontrivial: 0, found: vec![], outcomes: Default::default(), worst_exact: 0.0, sharp: vec![], worst_tone: 0.0 };
-        one::<f64>(&mut acc, &item, cfg.chunk, None)?;
-        one::<f32>(&mut acc, &item, cfg.chunk, None)?;
-        let mut log = String::new();
-        for f in &acc.found {
-            log.push_str(&format!("    VIOLATES C08 [{}] {} | {}\n", f["sig"].as_str().unwrap_or(""), f["point"].as_str().unwrap_or(""), f["detail"].as_str().unwrap_or("")));
-        }
-        Ok((!acc.found.is_empty(), log))
+        crate::frame::replay_by_item(self, replay)
     }
     fn rule(&self, _tier: Tier) -> String {
         "full product of degree(5) x ratio x {FastFixedIn, FastFixedOut} x chunk x {f32,f64} x monomial (n/64)^k for k = 0..degree (must be exact to rounding) and k = degree+1 (must equal the polynomial through exactly the documented nodes, error term prod(t-node)/64^k included), every output frame of six chunks whose window lies in supplied data; Nearest: the input sample at or just before the instant, bit-exact; four tones against the classical bound C_d*(pi f)^(d+1). Non-trivial = more than 16 frames compared".into()
